@@ -3,13 +3,18 @@ import SuitVerif.CborProofs
 import SuitVerif.Spec
 import SuitVerif.Registry
 import SuitVerif.Generated.Schema
+import SuitVerif.BytesLevel
+import SuitVerif.Generated.Guards
 /-! # C01 — created envelopes carry correct manifest and severed-member digests
 
 `Spec.check1` / `Spec.checkRec` (Spec.lean) are the byte-level statement evaluated on the real tool's output.
-The theorems below are about the model of `create`: they hold for every schema, file system, hash function and
-description, with no bound on sizes or nesting.  What is *not yet* a theorem: the bridge from the tree that is
-serialised to `Spec.check1` of its bytes (it needs the typing of nodes built over `Generated.schema`); that step is
-covered by evaluating `Spec.checkRec` on the implementation's bytes and by byte-for-byte correspondence. -/
+The theorems below are about the model of `create`: they hold for every file system, hash function and description,
+with no bound on sizes or nesting.  `C01_create_digests` is the node-level statement (any schema); `C01_bytes` carries it
+to the bytes: `Spec.check1` holds of what `create` writes, for the schema extracted from the running code (through the
+typing theorem `Typing.fromObj_typed`, the kernel-checked description of the digest paths `C01_schema_paths`, and shape
+preservation through the two digest updates).  Its one hypothesis beyond success of `create`: the four layers the strict
+reader has to read back are encodable (lengths and integers below 2^64).  Not a theorem: the same at nested levels of
+integrated dependencies (`Spec.checkRec`), which is evaluated on the implementation's bytes. -/
 namespace SuitVerif.Props.C01
 open SuitVerif SuitVerif.Encode
 
@@ -48,5 +53,67 @@ theorem C01_span (out : Bytes) (c : Cbor) (h : decodeStrict out = some c) : out 
 
 /-- the digest algorithms and lengths of the running code are the registry's (SHAKE128 → 16, SHAKE256 → 32 bytes) -/
 theorem C01_hash_table : Generated.schema.hashes = Registry.hashLengths := by decide +kernel
+
+/-- the digest paths of the schema extracted from the running code are the ones the byte-level argument needs (kernel evaluation) -/
+theorem C01_schema_paths : Typing.EnvFacts Generated.schema := Typing.generated_envFacts
+
+/-- **Byte level, all inputs.** For the extracted schema, every file system, every hash function, every description: whatever
+`create` writes satisfies `Spec.check1` - the authentication wrapper's digest is the declared hash of the byte-string-wrapped
+manifest of that same file, every digest reference to a present severed member is the declared hash of that member's wrapped
+bytes - provided the four layers are encodable.  `H` is the verifier's digest table by COSE identifier. -/
+theorem C01_bytes (cx : Ctx) (hs : cx.schema = Generated.schema) (H : Spec.HashById)
+    (hH : ∀ e ∈ Typing.hashEnum cx.schema, H e.2 = some (cx.hashFn e.1))
+    (fuel : Nat) (o : Obj) (out : Bytes) (h : create cx fuel o = .ok out) :
+    ∃ n, out = n.toBytes ∧ ((∀ v ∈ Typing.layerVals n, v.wf = true) → Spec.check1 H out = true) := by
+  have hf : Typing.EnvFacts cx.schema := by rw [hs]; exact C01_schema_paths
+  cases fuel with
+  | zero => simp [create] at h
+  | succ fuel =>
+    unfold create at h
+    cases h0 : fromObj cx fuel cx.schema.envelope o with
+    | error e => simp [h0, bind, Except.bind] at h
+    | ok n0 =>
+      simp only [h0, bind, Except.bind] at h
+      cases h1 : updateSeverable cx n0 with
+      | error e => simp [h1] at h
+      | ok n1 =>
+        simp only [h1] at h
+        cases h2 : updateDigest cx n1 with
+        | error e => simp [h2] at h
+        | ok n2 =>
+          simp only [h2, pure, Except.pure, Except.ok.injEq] at h
+          refine ⟨n2, h.symm, fun hwf => ?_⟩
+          rw [← h]
+          exact Typing.check1_steps cx hf H hH fuel o n0 n1 n2 h0 h1 h2 hwf
+
+/-- the digest algorithm names and identifiers the byte-level theorem ranges over are the registry's -/
+theorem C01_hash_enum :
+    (Registry.spaces.find? (fun sp => sp.1 == "SuitCoseHashAlg")).map (·.2) = some (Typing.hashEnum Generated.schema) := by
+  decide +kernel
+
+/-! ### non-vacuity: a concrete description, created by the model over the extracted schema, meets every hypothesis of `C01_bytes`
+and the byte-level predicate holds of it (kernel evaluation; a toy hash keeps the evaluation small) -/
+
+def cxToy : Ctx :=
+  { schema := Generated.schema, guards := Generated.guards, fs := fun _ => none, hashFn := fun a b => (utf8 a).take 3 ++ b.take 5,
+    sha1 := fun b => b, jsonLoads := fun _ => none }
+
+def toyH : Spec.HashById := fun id =>
+  ((Typing.hashEnum Generated.schema).find? (fun e => e.2 == id)).map (fun e => cxToy.hashFn e.1)
+
+def toyDesc : Obj :=
+  .dict [("SUIT_Envelope_Tagged", .dict [
+    ("suit-authentication-wrapper", .dict [("SuitDigest", .dict [("suit-digest-algorithm-id", .str "cose-alg-sha-256")])]),
+    ("suit-manifest", .dict [("suit-manifest-version", .int 1), ("suit-manifest-sequence-number", .int 7),
+      ("suit-install", .dict [("suit-digest-algorithm-id", .str "cose-alg-sha-512")]),
+      ("suit-validate", .list [.dict [("suit-condition-image-match", .list [])]])]),
+    ("suit-install", .list [.dict [("suit-directive-set-component-index", .int 0)]])])]
+
+example : (match createTop cxToy toyDesc with | .ok out => Spec.check1 toyH out | .error _ => false) = true := by decide +kernel
+
+/-- the toy digest table agrees with the toy hash function on every algorithm of the enumeration (evaluated on a sample input; the
+table is `find?` by identifier over an enumeration with pairwise different identifiers) -/
+example : (Typing.hashEnum cxToy.schema).all (fun e => (toyH e.2).map (fun f => f [1, 2, 3, 4, 5, 6]) == some (cxToy.hashFn e.1 [1, 2, 3, 4, 5, 6])) = true := by
+  decide +kernel
 
 end SuitVerif.Props.C01
